@@ -313,11 +313,10 @@ type callRec struct {
 	Err  bool   `json:"err"`
 }
 
-// storeWrap wraps the Manager and Traverser the engine uses.
-type storeWrap struct {
-	relationtuple.Manager
-	tr relationtuple.Traverser
-
+// runState is the per-request state of the storage wrapper. It travels in the
+// request context, so storage calls still issued by stragglers of an earlier
+// request are never attributed to the current one.
+type runState struct {
 	mu        sync.Mutex
 	seq       int
 	log       []callRec
@@ -330,36 +329,46 @@ type storeWrap struct {
 	delaySeed uint64 // != 0: pseudo-random delays per call
 }
 
-func (w *storeWrap) reset() {
-	w.mu.Lock()
-	defer w.mu.Unlock()
-	w.seq, w.log, w.failAt, w.failAll, w.cancelAt, w.cancelFn, w.failErr, w.delaySeed = 0, nil, 0, false, 0, nil, nil, 0
+type rsKeyT struct{}
+
+func withRunState(ctx context.Context, rs *runState) context.Context {
+	return context.WithValue(ctx, rsKeyT{}, rs)
 }
 
-func (w *storeWrap) calls() int {
-	w.mu.Lock()
-	defer w.mu.Unlock()
-	return w.seq
+func (rs *runState) calls() int {
+	rs.mu.Lock()
+	defer rs.mu.Unlock()
+	return rs.seq
+}
+
+// storeWrap wraps the Manager and Traverser the engine uses.
+type storeWrap struct {
+	relationtuple.Manager
+	tr relationtuple.Traverser
 }
 
 var errInjected = errors.New("verif: injected storage failure")
 
-// enter numbers the call and decides whether it fails.
-func (w *storeWrap) enter(kind, arg string) (int, error) {
-	w.mu.Lock()
-	w.seq++
-	k := w.seq
+// enter numbers the call within its request and decides whether it fails.
+func (w *storeWrap) enter(ctx context.Context, kind string) (*runState, int, error) {
+	rs, _ := ctx.Value(rsKeyT{}).(*runState)
+	if rs == nil {
+		return nil, 0, nil
+	}
+	rs.mu.Lock()
+	rs.seq++
+	k := rs.seq
 	var err error
-	if w.failAt != 0 && (k == w.failAt || (w.failAll && k > w.failAt)) {
-		err = w.failErr
+	if rs.failAt != 0 && (k == rs.failAt || (rs.failAll && k > rs.failAt)) {
+		err = rs.failErr
 		if err == nil {
 			err = errInjected
 		}
 	}
-	cf := w.cancelFn
-	doCancel := w.cancelAt != 0 && k == w.cancelAt
-	seed := w.delaySeed
-	w.mu.Unlock()
+	cf := rs.cancelFn
+	doCancel := rs.cancelAt != 0 && k == rs.cancelAt
+	seed := rs.delaySeed
+	rs.mu.Unlock()
 	if doCancel && cf != nil {
 		cf()
 	}
@@ -375,37 +384,37 @@ func (w *storeWrap) enter(kind, arg string) (int, error) {
 			time.Sleep(200 * time.Microsecond)
 		}
 	}
-	return k, err
+	return rs, k, err
 }
 
-func (w *storeWrap) leave(k int, kind, arg, res string, err error) {
-	if !w.keepLog {
+func (rs *runState) leave(k int, kind, arg, res string, err error) {
+	if rs == nil || !rs.keepLog {
 		return
 	}
-	w.mu.Lock()
-	w.log = append(w.log, callRec{Seq: k, Kind: kind, Arg: arg, Res: res, Err: err != nil})
-	w.mu.Unlock()
+	rs.mu.Lock()
+	rs.log = append(rs.log, callRec{Seq: k, Kind: kind, Arg: arg, Res: res, Err: err != nil})
+	rs.mu.Unlock()
 }
 
 func (w *storeWrap) ExistsRelationTuples(ctx context.Context, q *relationtuple.RelationQuery) (bool, error) {
-	k, ferr := w.enter("exists", "")
+	rs, k, ferr := w.enter(ctx, "exists")
 	if ferr != nil {
-		w.leave(k, "exists", qstr(q), "", ferr)
+		rs.leave(k, "exists", qstr(q), "", ferr)
 		return false, ferr
 	}
 	ok, err := w.Manager.ExistsRelationTuples(ctx, q)
-	w.leave(k, "exists", qstr(q), fmt.Sprint(ok), err)
+	rs.leave(k, "exists", qstr(q), fmt.Sprint(ok), err)
 	return ok, err
 }
 
 func (w *storeWrap) GetRelationTuples(ctx context.Context, q *relationtuple.RelationQuery, o ...x.PaginationOptionSetter) ([]*relationtuple.RelationTuple, string, error) {
-	k, ferr := w.enter("list", "")
+	rs, k, ferr := w.enter(ctx, "list")
 	if ferr != nil {
-		w.leave(k, "list", qstr(q), "", ferr)
+		rs.leave(k, "list", qstr(q), "", ferr)
 		return nil, "", ferr
 	}
 	ts, next, err := w.Manager.GetRelationTuples(ctx, q, o...)
-	w.leave(k, "list", qstr(q), fmt.Sprintf("%d/%s", len(ts), next), err)
+	rs.leave(k, "list", qstr(q), fmt.Sprintf("%d/%s", len(ts), next), err)
 	return ts, next, err
 }
 
@@ -417,24 +426,24 @@ func qstr(q *relationtuple.RelationQuery) string {
 type travWrap struct{ w *storeWrap }
 
 func (t travWrap) TraverseSubjectSetExpansion(ctx context.Context, tuple *relationtuple.RelationTuple) ([]*relationtuple.TraversalResult, error) {
-	k, ferr := t.w.enter("expand", "")
+	rs, k, ferr := t.w.enter(ctx, "expand")
 	if ferr != nil {
-		t.w.leave(k, "expand", tuple.String(), "", ferr)
+		rs.leave(k, "expand", tuple.String(), "", ferr)
 		return nil, ferr
 	}
 	res, err := t.w.tr.TraverseSubjectSetExpansion(ctx, tuple)
-	t.w.leave(k, "expand", tuple.String(), fmt.Sprint(len(res)), err)
+	rs.leave(k, "expand", tuple.String(), fmt.Sprint(len(res)), err)
 	return res, err
 }
 
 func (t travWrap) TraverseSubjectSetRewrite(ctx context.Context, tuple *relationtuple.RelationTuple, css []string) ([]*relationtuple.TraversalResult, error) {
-	k, ferr := t.w.enter("rewrite", "")
+	rs, k, ferr := t.w.enter(ctx, "rewrite")
 	if ferr != nil {
-		t.w.leave(k, "rewrite", tuple.String(), "", ferr)
+		rs.leave(k, "rewrite", tuple.String(), "", ferr)
 		return nil, ferr
 	}
 	res, err := t.w.tr.TraverseSubjectSetRewrite(ctx, tuple, css)
-	t.w.leave(k, "rewrite", tuple.String(), fmt.Sprint(len(res)), err)
+	rs.leave(k, "rewrite", tuple.String(), fmt.Sprint(len(res)), err)
 	return res, err
 }
 
